@@ -32,6 +32,7 @@ func init() {
 			{"C16.worker-error-private", "the verify workers do not share an error variable with each other or with the walk (shared with C07)", 1, func(c *Ctx) {
 				c.sideGoroutineErrors(func(key string) bool { return strings.HasPrefix(key, "LocalStore.") })
 			}},
+			{"C16.lister-done", "a listing the context can stop is not taken for complete (shared with C07)", 1, c07ListerDone},
 			{"C16.verify", "verify removes exactly the invalid chunks, only with repair", 3, c16Verify},
 		},
 	})
@@ -392,6 +393,7 @@ func c16ListingErrors(c *Ctx) {
 }
 
 func c16Verify(c *Ctx) {
+	c16VerifyForcesCheck(c)
 	fn := c.mustFn("LocalStore.Verify")
 	if fn == nil {
 		return
@@ -625,9 +627,58 @@ func c16WalkComplete(c *Ctx) {
 		}
 		n += walks
 		c.verdict(walks == 1, key+":walk", fn.Pos(), "one filepath.Walk over the store root; the callback never skips a directory", fmt.Sprintf("%d walks found", walks))
+		// filepath.Walk lstats its root: handed a symlink to the store directory it visits the link
+		// and nothing else - prune and verify then do nothing and report success.  The root that
+		// is walked is the store location with symlinks resolved.
+		var resolved func(v ssa.Value, depth int) bool
+		resolved = func(v ssa.Value, depth int) bool {
+			ls := leaves(v)
+			if len(ls) == 0 || depth > 4 {
+				return false
+			}
+			for _, l := range ls {
+				call, idx := callOf(l)
+				if call == nil || idx != 0 {
+					return false
+				}
+				if callee(call) == "path/filepath.EvalSymlinks" {
+					continue
+				}
+				g := call.Call.StaticCallee()
+				if g == nil || len(g.Blocks) == 0 || g.Pkg != c.LibSSA {
+					return false
+				}
+				for _, r := range returnsOf(g) {
+					if len(r.Results) == 0 || !resolved(unspill(r, r.Results[0]), depth+1) {
+						return false
+					}
+				}
+			}
+			return true
+		}
+		for _, f := range withClosures(fn) {
+			for _, wk := range calls(f, named("path/filepath.Walk", "path/filepath.WalkDir")) {
+				c.verdict(resolved(wk.Common().Args[0], 0), key+":walk-root", wk.Pos(), "the walk starts at the store location with symlinks resolved",
+					"the walk starts at the store location as given: if that is a symlink to the store directory, filepath.Walk (which lstats its root) visits nothing - no chunk is verified or pruned and success is reported")
+			}
+		}
 	}
 	if n < 2 {
 		c.bad("walk-complete", token.NoPos, "expected the walks of Verify and Prune")
+	}
+	// the SFTP store walks with a kr/fs Walker: its SkipDir() has the same effect, and the walker
+	// also yields the root - a rule about directory *names* skips a whole store called ".cache"
+	if fn := c.mustFn("SFTPStore.Prune"); fn != nil {
+		skips := 0
+		for _, g := range fnsDeep(fn) {
+			for _, cs := range calls(g, suffixed("fs.Walker).SkipDir")) {
+				skips++
+				c.bad("SFTPStore.Prune:SkipDir", cs.Pos(), "the walk of the SFTP store can skip a directory: the chunks below it (the whole store, if the rule matches the root) are never pruned while success is reported")
+			}
+		}
+		if skips == 0 {
+			c.ok("SFTPStore.Prune:walk", fn.Pos(), "the SFTP walk never skips a directory")
+		}
 	}
 }
 
@@ -767,4 +818,56 @@ func extSelectedByOption(v ssa.Value, comp, uncomp string) (bool, string) {
 		return false, "only one of the two extensions can be chosen"
 	}
 	return true, ""
+}
+
+// c16VerifyForcesCheck: LocalStore.Verify finds invalid chunks through the check GetChunk makes
+// when it builds the chunk, and that check is switched off by StoreOptions.SkipVerify.  The
+// options the verify command opens its store with come from the config file (per-location
+// settings such as the storage format are needed), so the command must force SkipVerify to false
+// before it constructs the store: otherwise "skip-verify": true in the config turns verify into
+// a command that reads every chunk and reports none.
+func c16VerifyForcesCheck(c *Ctx) {
+	fn := c.mustFn("cmd.runVerify")
+	if fn == nil {
+		return
+	}
+	n := 0
+	for _, g := range fnsDeep(fn) {
+		for _, cs := range calls(g, named("desync.NewLocalStore")) {
+			if cs.Parent() != g {
+				continue
+			}
+			n++
+			arg := cs.Common().Args[1]
+			okF := false
+			if ld, isLd := arg.(*ssa.UnOp); isLd && ld.Op == token.MUL {
+				if cell, isCell := ld.X.(*ssa.Alloc); isCell && cell.Referrers() != nil {
+					for _, ref := range *cell.Referrers() {
+						fa, isFA := ref.(*ssa.FieldAddr)
+						if !isFA || fieldOf(fa) != "StoreOptions.SkipVerify" || fa.Referrers() == nil {
+							continue
+						}
+						var last *ssa.Store
+						allFalse := true
+						for _, r2 := range *fa.Referrers() {
+							if st, isSt := r2.(*ssa.Store); isSt {
+								if k, isK := st.Val.(*ssa.Const); !isK || k.Value == nil || k.Value.ExactString() != "false" {
+									allFalse = false
+								}
+								last = st
+							}
+						}
+						if last != nil && allFalse && instrDominates(last, ld) {
+							okF = true
+						}
+					}
+				}
+			}
+			c.verdict(okF, "cmd.runVerify:forces-verification", cs.Pos(), "the store is opened with SkipVerify forced to false",
+				"the verify command opens its store with the SkipVerify setting of the config file: with \"skip-verify\": true for that location no chunk is checked and a store full of garbage is reported as fine")
+		}
+	}
+	if n == 0 {
+		c.bad("cmd.runVerify:forces-verification", fn.Pos(), "the verify command does not open a local store")
+	}
 }
